@@ -22,6 +22,7 @@ import (
 	"seehuhn.de/go/pdf/font"
 	"seehuhn.de/go/pdf/font/cff"
 	"seehuhn.de/go/pdf/font/charcode"
+	"seehuhn.de/go/pdf/font/cmap"
 	"seehuhn.de/go/pdf/font/dict"
 	"seehuhn.de/go/pdf/font/encoding/cidenc"
 	"seehuhn.de/go/pdf/font/gofont"
@@ -32,19 +33,149 @@ import (
 	"seehuhn.de/go/pdf/page"
 	"seehuhn.de/go/pdf/pagetree"
 	"seehuhn.de/go/pdf/reader"
+	"seehuhn.de/go/sfnt"
 	"seehuhn.de/go/sfnt/glyph"
 )
 
 func init() {
-	addRun("C14", "end-to-end: 1-3 fonts per page out of the 18 kinds of internal/fonttypes, 4 composite kinds with the UTF-8 encoder, the 12 Go fonts as simple and composite and the 14 standard fonts; PDF versions 1.2-2.0; 2-8 strings per page over the part of Latin/Latin-1/Latin Extended-A/Greek/Cyrillic/punctuation/ligature sequences the font has glyphs for, lengths 1-40, some pages with more than 256 distinct glyphs per simple font, Layout and Show interleaved; a case is one page, non-trivial when at least 3 glyphs were shown; distinct by fonts+version+strings", runFntE2E)
+	addRun("C14", "end-to-end: 1-3 fonts per page out of the 18 kinds of internal/fonttypes, 4 composite kinds with the UTF-8 encoder, the 12 Go fonts as simple and composite, the 14 standard fonts, and the non-default embedding options of the composite kinds: 6 font programs (CFF, CFF with CID operators, two private dicts, TrueType, OpenType/CFF, OpenType/glyf) x GID->CID mapping (sequential, identity, the CIDs of Adobe-Japan1/GB1/CNS1/Korea1/KR found through the font's Unicode cmap) x encoder (Identity-H, UTF-8 encoder, the collection's identity CMap and its predefined Unicode/legacy CMaps); PDF versions 1.2-2.0; 2-8 strings per page over the part of Latin/Latin-1/Latin Extended-A/Greek/Cyrillic/punctuation/ligature sequences the font can encode, lengths 1-40, some pages with more than 256 distinct glyphs per simple font, Layout and Show interleaved; on 3 of 5 pages a fifth of the glyphs get a text of the caller's choice instead of the layouter's (empty, several runes, NFKC-equivalent variants such as U+00AD/U+00A0/U+FB01/U+2126/fullwidth forms, the text of another glyph, astral and private-use characters; one text per glyph and page for fixed CMaps); oracle: reader text per code == text given at Encode time; a case is one page, non-trivial when at least 3 glyphs were shown; distinct by fonts+version+strings+overrides", runFntE2E)
 	addReplay("C14", "fnt-e2e", fntReplayE2E)
 }
 
 type fntKind struct {
 	label     string
 	composite bool
-	identity  bool // composite with a fixed (identity) CMap
+	identity  bool // composite with a fixed CMap (Identity-H/V or a predefined CMap): one code per CID
 	mk        func() (font.Layouter, error)
+	mayRefuse bool // predefined CMap: a CID without a code cannot be encoded (the builder skips the glyph)
+}
+
+// non-default embedding options of the composite kinds: the font program, the
+// GID -> CID mapping (sequential, identity, or the CIDs of a character
+// collection looked up through the font's Unicode cmap) and the encoder
+// (Identity-H, the UTF-8 encoder, a predefined CMap of the collection).
+type fntROS struct {
+	tag      string // ordering
+	identity string // the Adobe-<ordering>-<n> identity CMap (gives the ROS)
+	unicode  []string
+}
+
+var fntROSes = []fntROS{
+	{"Japan1", "Adobe-Japan1-7", []string{"UniJIS-UTF16-H", "UniJIS-UCS2-H", "UniJIS-UTF8-H", "90ms-RKSJ-H"}},
+	{"GB1", "Adobe-GB1-5", []string{"UniGB-UTF16-H", "UniGB-UCS2-H"}},
+	{"CNS1", "Adobe-CNS1-7", []string{"UniCNS-UTF16-H", "UniCNS-UTF8-H"}},
+	{"Korea1", "Adobe-Korea1-2", []string{"UniKS-UTF16-H", "UniKS-UCS2-H"}},
+	{"KR", "Adobe-KR-9", []string{"UniAKR-UTF16-H", "UniAKR-UTF8-H"}},
+}
+
+type fntCompBase struct {
+	tag  string
+	info func() *sfnt.Font
+	mk   func(info *sfnt.Font, g2c func() cmap.GIDToCID, enc func(float64, font.WritingMode) cidenc.CIDEncoder) (font.Layouter, error)
+}
+
+var fntCompBases = []fntCompBase{
+	{"cff", verifhook.OpenType, func(i *sfnt.Font, g func() cmap.GIDToCID, e func(float64, font.WritingMode) cidenc.CIDEncoder) (font.Layouter, error) {
+		return cff.NewComposite(i, &cff.OptionsComposite{MakeGIDToCID: g, MakeEncoder: e})
+	}},
+	{"cffcid", verifhook.OpenTypeCID, func(i *sfnt.Font, g func() cmap.GIDToCID, e func(float64, font.WritingMode) cidenc.CIDEncoder) (font.Layouter, error) {
+		return cff.NewComposite(i, &cff.OptionsComposite{MakeGIDToCID: g, MakeEncoder: e})
+	}},
+	{"cffcid2", verifhook.OpenTypeCID2, func(i *sfnt.Font, g func() cmap.GIDToCID, e func(float64, font.WritingMode) cidenc.CIDEncoder) (font.Layouter, error) {
+		return cff.NewComposite(i, &cff.OptionsComposite{MakeGIDToCID: g, MakeEncoder: e})
+	}},
+	{"tt", verifhook.TrueType, func(i *sfnt.Font, g func() cmap.GIDToCID, e func(float64, font.WritingMode) cidenc.CIDEncoder) (font.Layouter, error) {
+		return truetype.NewComposite(i, &truetype.OptionsComposite{MakeGIDToCID: g, MakeEncoder: e})
+	}},
+	{"otcff", verifhook.OpenType, func(i *sfnt.Font, g func() cmap.GIDToCID, e func(float64, font.WritingMode) cidenc.CIDEncoder) (font.Layouter, error) {
+		return opentype.NewComposite(i, &opentype.OptionsComposite{MakeGIDToCID: g, MakeEncoder: e})
+	}},
+	{"otglyf", verifhook.TrueType, func(i *sfnt.Font, g func() cmap.GIDToCID, e func(float64, font.WritingMode) cidenc.CIDEncoder) (font.Layouter, error) {
+		return opentype.NewComposite(i, &opentype.OptionsComposite{MakeGIDToCID: g, MakeEncoder: e})
+	}},
+}
+
+// fntOptionKinds enumerates base x GID->CID x encoder.
+func fntOptionKinds() []fntKind {
+	var out []fntKind
+	for _, b := range fntCompBases {
+		b := b
+		type g2c struct {
+			tag string
+			ros *fntROS
+			mk  func(info *sfnt.Font) (func() cmap.GIDToCID, error)
+		}
+		g2cs := []g2c{
+			{"seq", nil, func(*sfnt.Font) (func() cmap.GIDToCID, error) { return cmap.NewGIDToCIDSequential, nil }},
+			{"gid", nil, func(*sfnt.Font) (func() cmap.GIDToCID, error) { return cmap.NewGIDToCIDIdentity, nil }},
+		}
+		for i := range fntROSes {
+			ro := &fntROSes[i]
+			g2cs = append(g2cs, g2c{"ros" + ro.tag, ro, func(info *sfnt.Font) (func() cmap.GIDToCID, error) {
+				lookup, err := info.CMapTable.GetBest()
+				if err != nil {
+					return nil, err
+				}
+				cm, err := cmap.Predefined(ro.identity)
+				if err != nil {
+					return nil, err
+				}
+				return func() cmap.GIDToCID { return cmap.NewGIDToCIDFromROS(cm.ROS, lookup) }, nil
+			}})
+		}
+		for _, g := range g2cs {
+			g := g
+			encs := []string{"identity", "utf8"}
+			if g.ros != nil {
+				encs = append(encs, g.ros.identity)
+				encs = append(encs, g.ros.unicode...)
+			}
+			for _, e := range encs {
+				e := e
+				if g.tag == "seq" && (e == "identity" || e == "utf8") {
+					continue // the default kinds and the -utf8 kinds above
+				}
+				out = append(out, fntKind{
+					label: "X/" + b.tag + "/" + g.tag + "/" + e, composite: true,
+					identity: e != "utf8", mayRefuse: e != "utf8" && e != "identity",
+					mk: func() (font.Layouter, error) {
+						info := b.info()
+						mg, err := g.mk(info)
+						if err != nil {
+							return nil, err
+						}
+						var me func(float64, font.WritingMode) cidenc.CIDEncoder
+						switch e {
+						case "identity":
+							me = cidenc.NewCompositeIdentity
+						case "utf8":
+							me = cidenc.NewCompositeUtf8
+						default:
+							cm, err := cmap.Predefined(e)
+							if err != nil {
+								return nil, err
+							}
+							var encErr error
+							me = func(w0 float64, _ font.WritingMode) cidenc.CIDEncoder {
+								enc, err := cidenc.NewFromCMap(cm, w0)
+								if err != nil {
+									encErr = err
+									return cidenc.NewCompositeIdentity(w0, font.Horizontal)
+								}
+								return enc
+							}
+							F, err := b.mk(info, mg, me)
+							if encErr != nil {
+								return nil, encErr
+							}
+							return F, err
+						}
+						return b.mk(info, mg, me)
+					}})
+			}
+		}
+	}
+	return out
 }
 
 var fntKinds []fntKind
@@ -55,32 +186,33 @@ func fntInitKinds() {
 	}
 	for _, s := range verifhook.All() {
 		s := s
-		fntKinds = append(fntKinds, fntKind{s.Label, s.Composite, s.Composite, func() (font.Layouter, error) { return s.MakeFont(), nil }})
+		fntKinds = append(fntKinds, fntKind{label: s.Label, composite: s.Composite, identity: s.Composite, mk: func() (font.Layouter, error) { return s.MakeFont(), nil }})
 	}
 	fntKinds = append(fntKinds,
-		fntKind{"CFFComposite-utf8", true, false, func() (font.Layouter, error) {
+		fntKind{label: "CFFComposite-utf8", composite: true, mk: func() (font.Layouter, error) {
 			return cff.NewComposite(verifhook.OpenType(), &cff.OptionsComposite{MakeEncoder: cidenc.NewCompositeUtf8})
 		}},
-		fntKind{"TrueTypeComposite-utf8", true, false, func() (font.Layouter, error) {
+		fntKind{label: "TrueTypeComposite-utf8", composite: true, mk: func() (font.Layouter, error) {
 			return truetype.NewComposite(verifhook.TrueType(), &truetype.OptionsComposite{MakeEncoder: cidenc.NewCompositeUtf8})
 		}},
-		fntKind{"OpenTypeCFFComposite-utf8", true, false, func() (font.Layouter, error) {
+		fntKind{label: "OpenTypeCFFComposite-utf8", composite: true, mk: func() (font.Layouter, error) {
 			return opentype.NewComposite(verifhook.OpenType(), &opentype.OptionsComposite{MakeEncoder: cidenc.NewCompositeUtf8})
 		}},
-		fntKind{"OpenTypeGlyfComposite-utf8", true, false, func() (font.Layouter, error) {
+		fntKind{label: "OpenTypeGlyfComposite-utf8", composite: true, mk: func() (font.Layouter, error) {
 			return opentype.NewComposite(verifhook.TrueType(), &opentype.OptionsComposite{MakeEncoder: cidenc.NewCompositeUtf8})
 		}},
 	)
 	for i := gofont.Regular; i <= gofont.MonoItalic; i++ {
 		i := i
 		fntKinds = append(fntKinds,
-			fntKind{fmt.Sprintf("Go%d-simple", int(i)), false, false, func() (font.Layouter, error) { return i.NewSimple(nil) }},
-			fntKind{fmt.Sprintf("Go%d-composite", int(i)), true, true, func() (font.Layouter, error) { return i.NewComposite(nil) }})
+			fntKind{label: fmt.Sprintf("Go%d-simple", int(i)), mk: func() (font.Layouter, error) { return i.NewSimple(nil) }},
+			fntKind{label: fmt.Sprintf("Go%d-composite", int(i)), composite: true, identity: true, mk: func() (font.Layouter, error) { return i.NewComposite(nil) }})
 	}
 	for _, f := range standard.All {
 		f := f
-		fntKinds = append(fntKinds, fntKind{"Std-" + fmt.Sprint(f), false, false, func() (font.Layouter, error) { return f.New() }})
+		fntKinds = append(fntKinds, fntKind{label: "Std-" + fmt.Sprint(f), mk: func() (font.Layouter, error) { return f.New() }})
 	}
+	fntKinds = append(fntKinds, fntOptionKinds()...)
 }
 
 func fntKindByLabel(l string) *fntKind {
@@ -121,30 +253,59 @@ var fntLigatures = []string{"fi", "fl", "ff", "ffi", "ffl", "office", "fjord", "
 var fntAlphabetCache = map[string][]string{}
 
 // fntAlphabet: the candidates for which the font has glyphs (no glyph 0).
-func fntAlphabet(label string, F font.Layouter) []string {
-	if a, ok := fntAlphabetCache[label]; ok {
+func fntAlphabet(k *fntKind, F font.Layouter) []string {
+	if a, ok := fntAlphabetCache[k.label]; ok {
 		return a
 	}
 	var a []string
+	codec := F.Codec()
 	for _, s := range fntCandidates {
 		seq := F.Layout(nil, 10, s)
 		ok := len(seq.Seq) > 0
 		for _, g := range seq.Seq {
 			if g.GID == 0 {
 				ok = false
+				break
+			}
+			if k.composite {
+				// composite kinds have codes to spare on this throw-away instance: the glyph
+				// must be encodable (a predefined CMap may have no code for its CID) and must not
+				// be the notdef CID (a character collection without this character)
+				code, enc := F.Encode(g.GID, g.Text)
+				if !enc {
+					ok = false
+					break
+				}
+				for c := range F.Codes(codec.AppendCode(nil, code)) {
+					if c.CID == 0 {
+						ok = false
+					}
+				}
 			}
 		}
 		if ok {
 			a = append(a, s)
 		}
 	}
-	fntAlphabetCache[label] = a
+	fntAlphabetCache[k.label] = a
 	return a
 }
 
 type fntShow struct {
 	Font int    `json:"f"`
 	Text string `json:"t"`
+	// Ov: glyph index (in the laid-out sequence) -> text given to the glyph instead of the text
+	// the layouter attached (what a caller does who sets font.Glyph.Text, e.g. for ActualText-free
+	// soft hyphens, no-break spaces, ligature spellings)
+	Ov map[int]string `json:"ov,omitempty"`
+}
+
+func (sh *fntShow) apply(seq *font.GlyphSeq) {
+	for i, t := range sh.Ov {
+		if i >= 0 && i < len(seq.Seq) {
+			seq.Seq[i].Text = t
+		}
+	}
 }
 
 type fntE2ECase struct {
@@ -159,6 +320,7 @@ type fntGlyphRec struct {
 	gid   glyph.ID
 	text  string
 	width float64 // text space units
+	nocid bool    // the font's GID -> CID mapping has no CID for the glyph: it was written as CID 0
 }
 
 type fntE2EResult struct {
@@ -167,6 +329,8 @@ type fntE2EResult struct {
 	skipped   string // reason the case could not be evaluated (version, font)
 	overflow  bool
 	shared    int
+	refused   int
+	overrides int
 	fontsUsed int
 }
 
@@ -236,7 +400,9 @@ func fntRunE2E(tc *fntE2ECase) (res fntE2EResult) {
 		var seqs []*font.GlyphSeq
 		for _, sh := range tc.Shows {
 			setFont(sh.Font)
-			seqs = append(seqs, doc.TextLayout(nil, sh.Text))
+			seq := doc.TextLayout(nil, sh.Text)
+			sh.apply(seq)
+			seqs = append(seqs, seq)
 		}
 		for i := len(tc.Shows) - 1; i >= 0; i-- {
 			setFont(tc.Shows[i].Font)
@@ -248,6 +414,7 @@ func fntRunE2E(tc *fntE2ECase) (res fntE2EResult) {
 		for _, sh := range tc.Shows {
 			setFont(sh.Font)
 			seq := doc.TextLayout(nil, sh.Text)
+			sh.apply(seq)
 			shows = append(shows, shown{sh.Font, append([]font.Glyph(nil), seq.Seq...)})
 			doc.TextShowGlyphs(seq)
 			doc.TextSecondLine(0, -11)
@@ -271,6 +438,10 @@ func fntRunE2E(tc *fntE2ECase) (res fntE2EResult) {
 		for _, g := range sh.glyphs {
 			code, ok := F.Encode(g.GID, g.Text)
 			if !ok {
+				if kinds[sh.font].mayRefuse {
+					res.refused++ // the predefined CMap has no code for this CID: the builder skips the glyph
+					continue
+				}
 				if kinds[sh.font].composite || F.CodesRemaining() > 0 {
 					viol("e2e-encode-refused", "%s: Encode(%d,%q) refused with %d codes remaining", kinds[sh.font].label, g.GID, g.Text, F.CodesRemaining())
 				}
@@ -282,7 +453,16 @@ func fntRunE2E(tc *fntE2ECase) (res fntE2EResult) {
 			if int(g.GID) < len(geom.Widths) {
 				w = geom.Widths[g.GID]
 			}
-			expected = append(expected, fntGlyphRec{sh.font, g.GID, g.Text, w})
+			nocid := false
+			if kinds[sh.font].composite && g.GID != 0 {
+				for c := range F.Codes(codec.AppendCode(nil, code)) {
+					nocid = c.CID == 0
+				}
+				if nocid {
+					viol("glyph-without-cid-shown-as-notdef", "%s: glyph %d (%q) has no CID in the character collection of the font's GID->CID mapping; Encode succeeds and writes the code of CID 0, the page shows .notdef", kinds[sh.font].label, g.GID, g.Text)
+				}
+			}
+			expected = append(expected, fntGlyphRec{sh.font, g.GID, g.Text, w, nocid})
 		}
 		strs = append(strs, s)
 		strFont = append(strFont, sh.font)
@@ -349,6 +529,9 @@ func fntRunE2E(tc *fntE2ECase) (res fntE2EResult) {
 		c := chars[i].code
 		readerFont[e.font] = chars[i].inst
 		k := kinds[e.font]
+		if e.nocid {
+			continue // reported above; width and text of the notdef glyph are not the shown glyph's
+		}
 		if math.Abs(c.Width-e.width) > 0.0005+1e-9 {
 			viol("e2e-width", "%s PDF %s: glyph %d (%q) has width %.5f, read back %.5f", k.label, tc.Version, e.gid, e.text, e.width, c.Width)
 		}
@@ -359,7 +542,9 @@ func fntRunE2E(tc *fntE2ECase) (res fntE2EResult) {
 			ft = e.text
 		}
 		if c.Text != e.text {
-			if c.Text == "" && fntSymbolicTrueType(chars[i].inst) {
+			if e.text == "" {
+				viol("empty-text-not-preserved", "%s PDF %s: glyph %d shown with the empty text reads back as %q (CID %d)", k.label, tc.Version, e.gid, c.Text, c.CID)
+			} else if c.Text == "" && fntSymbolicTrueType(chars[i].inst) {
 				viol("truetype-symbolic-text-lost", "%s PDF %s: glyph %d shown with text %q reads back without text: the font dictionary is a symbolic TrueType font (built-in encoding, no glyph names) and ToUnicode leaves out the texts 'implied by the glyph name'", k.label, tc.Version, e.gid, e.text)
 			} else if k.identity && ft != e.text && c.Text == ft {
 				res.shared++
@@ -390,8 +575,15 @@ func fntRunE2E(tc *fntE2ECase) (res fntE2EResult) {
 		}
 		for j := range wc {
 			a, b := wc[j], rc[j]
+			if kinds[strFont[i]].composite && a.CID == 0 {
+				continue // notdef (see glyph-without-cid-shown-as-notdef)
+			}
 			if b.Text == "" && a.Text != "" && fntSymbolicTrueType(R) && math.Abs(a.Width-b.Width) <= 1e-9 && a.UseWordSpacing == b.UseWordSpacing {
 				viol("truetype-symbolic-text-lost", "%s: string <%x> code %d: writer text %q, reader (symbolic TrueType dictionary) no text", kinds[strFont[i]].label, []byte(s), j, a.Text)
+				break
+			}
+			if a.Text == "" && b.Text != "" && math.Abs(a.Width-b.Width) <= 1e-9 && a.UseWordSpacing == b.UseWordSpacing {
+				viol("empty-text-not-preserved", "%s: string <%x> code %d: writer has the empty text, reader %q", kinds[strFont[i]].label, []byte(s), j, b.Text)
 				break
 			}
 			if math.Abs(a.Width-b.Width) > 1e-9 || a.Text != b.Text || a.UseWordSpacing != b.UseWordSpacing {
@@ -430,6 +622,57 @@ func fntReplayE2E(input string) (bool, string) {
 	return true, fmt.Sprintf("%d glyphs shown and read back with equal widths and texts", res.glyphs)
 }
 
+// NFKC-equivalent or otherwise "same glyph, other character" spellings
+var fntVariants = map[string][]string{
+	" ": {"\u00a0", "\u2002", "\u3000"}, "-": {"\u00ad", "\u2010", "\u2011", "\u2212"}, "fi": {"\ufb01"}, "fl": {"\ufb02"},
+	"\ufb01": {"fi"}, "\ufb02": {"fl"}, "ffi": {"\ufb03"}, "ffl": {"\ufb04"}, "ff": {"\ufb00"},
+	"\u03a9": {"\u2126"}, "\u2126": {"\u03a9"}, "\u00b5": {"\u03bc"}, "\u03bc": {"\u00b5"}, "K": {"\u212a"}, "\u00c5": {"\u212b", "A\u030a"},
+	"\u00e9": {"e\u0301"}, "'": {"\u2019", "\u02bc"}, "\"": {"\u201d"}, ".": {"\u2024"}, "1": {"\u00b9", "\u2460"}, "2": {"\u00b2"},
+	"a": {"\u00aa", "\u0430"}, "o": {"\u00ba", "\u03bf", "\u043e"}, "\u2026": {"..."}, "\u00bd": {"1\u20442"},
+}
+
+// fntOverrideText: a text for a glyph that differs from the text the layouter attached (and
+// from what a glyph name, a character collection or a base encoding would imply): empty,
+// several runes, an NFKC-equivalent variant, the text of another glyph, astral / private use.
+func fntOverrideText(r *Rand, orig string, alpha []string) string {
+	for try := 0; try < 4; try++ {
+		t := orig
+		switch r.Intn(8) {
+		case 0:
+			t = ""
+		case 1:
+			t = orig + Pick(r, []string{"\u0301", "x", "\u200d", orig})
+		case 2, 3:
+			if v, ok := fntVariants[orig]; ok {
+				t = Pick(r, v)
+			} else if rs := []rune(orig); len(rs) == 1 && rs[0] > 0x20 && rs[0] < 0x7f {
+				t = string(rs[0] - 0x20 + 0xff00) // fullwidth form
+			} else {
+				t = "[" + orig + "]"
+			}
+		case 4:
+			t = Pick(r, alpha)
+		case 5:
+			t = Pick(r, []string{"\U0001d49c", "\ue000", "\U000f0001", "\ufffd", "\u4e00", "\u3042"})
+		case 6:
+			t = Pick(r, []string{"ab", "A B", "\u0635\u0644\u0649", "1/2"})
+		default:
+			if orig == " " {
+				t = "\u00a0"
+			} else {
+				t = strings.ToUpper(orig)
+				if t == orig {
+					t = strings.ToLower(orig)
+				}
+			}
+		}
+		if t != orig {
+			return t
+		}
+	}
+	return orig + "~"
+}
+
 func fntGenString(r *Rand, alpha []string, n int) string {
 	var sb strings.Builder
 	for i := 0; i < n; i++ {
@@ -446,7 +689,7 @@ func fntGenString(r *Rand, alpha []string, n int) string {
 func runFntE2E(c *Ctx) {
 	fntInitKinds()
 	r := c.R.Fork()
-	n := 260
+	n := 400
 	if c.Thorough {
 		n = 4000
 	}
@@ -468,13 +711,36 @@ func runFntE2E(c *Ctx) {
 	for len(order) < n {
 		order = append(order, r.Intn(len(fntKinds)))
 	}
-	if !c.Thorough && len(order) > n {
-		// quick tier: the 18 kinds + utf8 variants always, a rotating sample of the rest
+	var optKinds, defKinds []int
+	for i := range fntKinds {
+		if strings.HasPrefix(fntKinds[i].label, "X/") {
+			optKinds = append(optKinds, i)
+		} else {
+			defKinds = append(defKinds, i)
+		}
+	}
+	if !c.Thorough {
+		// quick tier: the 18 kinds + utf8 variants, the fixed-pitch fonts and one kind per group of
+		// non-default options always; a rotating sample of everything else, half of it from the
+		// option kinds
 		head := append(append([]int(nil), order[:22]...), mono...)
-		rest := order[22:]
+		for _, l := range []string{"X/cff/rosJapan1/identity", "X/cff/rosJapan1/UniJIS-UTF16-H", "X/cffcid/rosJapan1/Adobe-Japan1-7",
+			"X/tt/rosGB1/identity", "X/otcff/rosKorea1/utf8", "X/cffcid2/gid/identity", "X/otglyf/rosCNS1/UniCNS-UTF16-H", "X/tt/rosKR/utf8"} {
+			if k := fntKindByLabel(l); k != nil {
+				for i := range fntKinds {
+					if &fntKinds[i] == k {
+						head = append(head, i)
+					}
+				}
+			}
+		}
 		var pick []int
 		for len(pick)+len(head) < n {
-			pick = append(pick, rest[r.Intn(len(rest))])
+			if len(pick)%2 == 0 {
+				pick = append(pick, Pick(r, optKinds))
+			} else {
+				pick = append(pick, Pick(r, defKinds))
+			}
 		}
 		order = append(head, pick...)
 	}
@@ -490,6 +756,7 @@ func runFntE2E(c *Ctx) {
 			idx = append(idx, rr.Intn(len(fntKinds)))
 		}
 		var alphas [][]string
+		var probes []font.Layouter
 		ok := true
 		for _, i := range idx {
 			F, err := func() (F font.Layouter, err error) {
@@ -506,7 +773,8 @@ func runFntE2E(c *Ctx) {
 				break
 			}
 			tc.Fonts = append(tc.Fonts, fntKinds[i].label)
-			alphas = append(alphas, fntAlphabet(fntKinds[i].label, F))
+			alphas = append(alphas, fntAlphabet(&fntKinds[i], F))
+			probes = append(probes, F)
 		}
 		if !ok {
 			continue
@@ -515,7 +783,13 @@ func runFntE2E(c *Ctx) {
 		tc.Version = vs
 		tc.Late = rr.P(1, 4)
 		ns := 2 + rr.Intn(7)
-		many := rr.P(1, 12) // aim beyond 256 codes
+		many := rr.P(1, 12)                             // aim beyond 256 codes
+		override := rr.P(3, 5)                          // pages on which some glyphs get a text of the caller's choice
+		chosen := make([]map[glyph.ID]string, len(idx)) // fixed CMaps: one text per glyph and page
+		for i := range chosen {
+			chosen[i] = map[glyph.ID]string{}
+		}
+		nOv := 0
 		for i := 0; i < ns; i++ {
 			f := rr.Intn(len(idx))
 			if len(alphas[f]) == 0 {
@@ -525,12 +799,50 @@ func runFntE2E(c *Ctx) {
 			if many {
 				ln = 80 + rr.Intn(60)
 			}
-			tc.Shows = append(tc.Shows, fntShow{f, fntGenString(rr, alphas[f], ln)})
+			sh := fntShow{Font: f, Text: fntGenString(rr, alphas[f], ln)}
+			if override {
+				seq := probes[f].Layout(nil, 9, sh.Text)
+				fixed := fntKinds[idx[f]].identity
+				for gi, g := range seq.Seq {
+					if fixed {
+						if t, ok := chosen[f][g.GID]; ok {
+							if t != g.Text {
+								if sh.Ov == nil {
+									sh.Ov = map[int]string{}
+								}
+								sh.Ov[gi] = t
+								nOv++
+							}
+							continue
+						}
+					}
+					t := g.Text
+					if rr.P(1, 5) {
+						t = fntOverrideText(rr, g.Text, alphas[f])
+					}
+					if fixed {
+						chosen[f][g.GID] = t
+					}
+					if t != g.Text {
+						if sh.Ov == nil {
+							sh.Ov = map[int]string{}
+						}
+						sh.Ov[gi] = t
+						nOv++
+					}
+				}
+			}
+			tc.Shows = append(tc.Shows, sh)
+		}
+		if nOv > 0 {
+			c.StatN("e2e.text-overrides", nOv)
+			c.Stat("e2e.pages-with-overrides")
 		}
 		res := fntRunE2E(tc)
 		raw, _ := json.Marshal(tc)
 		for _, v := range res.viols {
 			c.Violate(v.oracle, v.key, v.desc, string(raw))
+			c.Stat("e2e.class." + v.key + "." + fntKindClass(strings.TrimSuffix(strings.Fields(v.desc)[0], ":")))
 		}
 		c.Case(string(raw), res.glyphs >= 3 && res.skipped == "")
 		c.Stat("e2e.kind." + fntKindClass(tc.Fonts[0]))
@@ -543,6 +855,9 @@ func runFntE2E(c *Ctx) {
 		}
 		if res.shared > 0 {
 			c.Stat("e2e.shared-code-pages")
+		}
+		if res.refused > 0 {
+			c.StatN("e2e.glyphs-without-code-in-cmap", res.refused)
 		}
 		if len(c.rep.Samples) < 10 && res.skipped == "" && len(tc.Shows) > 0 {
 			c.Sample(fmt.Sprintf("e2e %v PDF %s %q… -> %d glyphs read back", tc.Fonts, tc.Version, truncate(tc.Shows[0].Text), res.glyphs))
